@@ -542,8 +542,63 @@ def eval_state(root, chain, g):
 
 
 # --------------------------------------------------------------------------- blocks / BFS
+# --------------------------------------------------------------------------- twins: same numbers, different type
+# Geometries of two types whose coordinate lists are literally the same numbers, buffered one after the other in the same process.
+# The second result is compared with the result for the same geometry moved by SHIFT seconds (a translation no other call of this
+# check uses): same area, bounds moved by SHIFT.  Every (pair, order, buffer) uses coordinates of its own.
+TWINS = [
+    ("MultiPoint", "LineString", [[1.0, 1000.0], [2.0, 2000.0]]),
+    ("MultiLineString", "Polygon", [[[1.0, 1000.0], [3.0, 1000.0], [3.0, 3000.0]]]),
+]
+TWIN_BUFFERS = [(0.5, 125.0), (2.0 ** -7, 1.0), (4.0, 1e4)]
+SHIFT = 16.0
+
+
+def _moved(c, dt, df):
+    if isinstance(c[0], list):
+        return [_moved(y, dt, df) for y in c]
+    return [c[0] + dt, c[1] + df]
+
+
+def twin_cases():
+    k = 0
+    for ta, tb_, coords in TWINS:
+        for first, second in ((ta, tb_), (tb_, ta)):
+            for b in TWIN_BUFFERS:
+                k += 1
+                yield {"twin": k, "first": first, "second": second, "coords": _moved(coords, 32.0 * k, 7.0 * k), "buffer": list(b)}
+
+
+def run_twin(case):
+    out = Out(case)
+    c, (tb, fb) = case["coords"], case["buffer"]
+    cls = {"kind": "twin", "first": case["first"], "second": case["second"], "geom": "twin", "root": "twin", "depth": 0}
+    try:
+        ga, gb, gref = mkgeom(case["first"], c), mkgeom(case["second"], c), mkgeom(case["second"], _moved(c, SHIFT, 0.0))
+    except Exception as e:  # noqa
+        out.fail("pool_constructible", "%s: %s" % (type(e).__name__, str(e)[:200]), "valid geometry accepted", cls)
+        return out
+    ra, rb, rref = call(ga, tb, fb), call(gb, tb, fb), call(gref, tb, fb)
+    out.transitions = 3
+    out.validated = 3
+    out.nontrivial = True
+    if not (ra[0] == rb[0] == rref[0] == "ok"):
+        out.fail("same_numbers_other_type", [ra[0], rb[0], rref[0]], "three results", dict(cls, what="call"))
+        return out
+    sb, sref = to_shape(rb[1].type, raw(rb[1].coordinates)), to_shape(rref[1].type, raw(rref[1].coordinates))
+    rel = abs(sb.area - sref.area) / max(sref.area, 1e-300)
+    out.expect("same_numbers_other_type", rel <= 1e-6, {"area": sb.area, "area_of_translated": sref.area, "rel": rel},
+               "same area as the translated geometry's result", dict(cls, what="area"))
+    bb, br = sb.bounds, sref.bounds
+    okb = all(abs(bb[i] - (br[i] - (SHIFT if i in (0, 2) else 0.0))) <= 1e-6 * max(1.0, abs(bb[i])) for i in range(4))
+    out.expect("same_numbers_other_type", okb, {"bounds": bb, "bounds_of_translated": br}, "bounds moved by %g s" % SHIFT,
+               dict(cls, what="bounds"))
+    out.klass = "twin:%s" % ("same" if not out.viol else "differs")
+    return out
+
+
 def blocks(tier):
-    return [{"root": pid, "tier": tier} for pid in POOL_IDS]
+    return [{"root": pid, "tier": tier} for pid in POOL_IDS] + [{"root": "@twins", "tier": tier}]
 
 
 def canon(g, last):
@@ -553,9 +608,20 @@ def canon(g, last):
 def run_block(block, rec):
     root = block["root"]
     use_tier(block["tier"])
+    if root == "@twins":
+        for case in twin_cases():
+            rec.add(run_twin(case))
+        return
     max_depth = DEPTH[block["tier"]]
     gtype, coords = POOL_BY_ID[root]
-    g0 = mkgeom(gtype, coords)
+    try:
+        g0 = mkgeom(gtype, coords)
+    except Exception as e:  # noqa  -- a geometry the model says is valid must be constructible
+        out = Out({"geom": root, "chain": [], "tier": block["tier"]})
+        out.fail("pool_constructible", "%s: %s" % (type(e).__name__, str(e)[:200]), "valid geometry accepted",
+                 {"geom": root, "type": gtype, "kind": "pool_rejected"})
+        rec.add(out)
+        return
     seen = {canon(g0, (0.0, 0.0))}
     frontier = deque([([], g0)])
     while frontier:
@@ -592,6 +658,8 @@ def rebuild(case):
 
 
 def replay_case(case):
+    if "twin" in case:
+        return run_twin(case)
     use_tier(case.get("tier"))
     chain = [(float(tb), float(fb)) for tb, fb in case["chain"]]
     g = rebuild(case)
